@@ -166,10 +166,12 @@ namespace Driver
 open Rdest Rdest.Wire Rdest.Swarm
 
 /-- The property predicate evaluated on a trace (the same definitions the theorems are about). -/
-def propPred (prop : String) (_mode : String) (tr : Trace) : Option String :=
+def propPred (prop : String) (mode : String) (tr : Trace) : Option String :=
+  let expected : Option Bytes := if mode.startsWith "out:" then parseHex (mode.drop 4).toString else none
   match prop with
-  | "C20" => if P20 Rdest.Gen.KEEP_ALIVE_LIMIT 0 true tr then none else some "P20-keepalive-discipline"
-  | "C06" => if P06 true tr then none else some "T5-receive-error-does-not-end-the-task"
+  | "C08" => if P08 ourInfoHash ourId expected tr then none else some "P08-handshake-gate"
+  | "C20" => if P20 Rdest.Gen.KEEP_ALIVE_LIMIT 0 tr then none else some "P20-keepalive-discipline"
+  | "C06" => if P06 tr then none else some "T5-receive-error-does-not-end-the-task"
   | _ => none
 
 def handVerdict (prop : String) (args res : List String) : Verdict :=
